@@ -5,7 +5,7 @@
 From Coq Require Import String.
 From Coq Require Import ZArith NArith Bool List.
 From PcoreV Require Import Model.Base Model.Format Model.FormatShare.
-From PcoreV Require Import Proofs.FormatProofs Proofs.FormatWidth Proofs.FormatTotal Proofs.FormatRadix Proofs.FormatNoFault Proofs.FormatShare.
+From PcoreV Require Import Proofs.FormatProofs Proofs.FormatWidth Proofs.FormatTotal Proofs.FormatRadix Proofs.FormatRadixPad Proofs.FormatNoFault Proofs.FormatShare.
 Import ListNotations.
 Open Scope Z_scope.
 
@@ -120,6 +120,53 @@ Proof.
   vm_compute. repeat split; try reflexivity.
   eexists. split; [reflexivity|]. vm_compute. repeat split; auto.
 Qed.
+
+(* ... under ANY flags, width and precision (zero filled to any width - beyond the 16 / 22 / 64 / 19 digits
+   a 64 bit number needs included -, filled by any precision, space padded on either side, '#', '+', ' '):
+   the rendering with its padding spaces trimmed (strings.TrimSpace) is converted back to n by both
+   dispatches of the constructor, Integer.new(text, radix [, abs]) and Integer.new({from => text, radix =>
+   radix [, abs => abs]}); under abs => true a negative n comes back negated (wrapping at MinInt64).
+   The single exception is fmt's (and C's) rule that precision 0 of the integer 0 renders no digit. *)
+Theorem C20_radix_roundtrip_any_format :
+  forall (o : oracle) (f : format) (n : Z) (t : str) (form : ctor_form) (abs : option bool),
+    in_int64 n = true -> mem (f_char f) l_dxXobB = true -> (f_prec f = 0 -> n <> 0) ->
+    render_scalar o f (VInt n) = OText t ->
+    int_ctor form (trim_space t) (radix_of (f_char f)) abs
+    = Some (if abs_given abs && (n <? 0) then wrap64 (- n) else n).
+Proof. exact radix_roundtrip_ctor. Qed.
+Print Assumptions C20_radix_roundtrip_any_format.
+
+(* a rendering that carries no white space (zero fill, precision fill, no width) converts back as it is *)
+Theorem C20_radix_roundtrip_filled :
+  forall (o : oracle) (f : format) (n : Z) (t : str),
+    in_int64 n = true -> mem (f_char f) l_dxXobB = true -> (f_prec f = 0 -> n <> 0) ->
+    render_scalar o f (VInt n) = OText t -> Forall (fun c => is_space_b c = false) t ->
+    int_new t (radix_of (f_char f)) = Some n.
+Proof. exact radix_roundtrip_filled. Qed.
+Print Assumptions C20_radix_roundtrip_filled.
+
+(* through px.NewFormatContext3(Integer n, directive) + px.ToString2, for every directive of the grammar *)
+Theorem C20_radix_roundtrip_any_directive :
+  forall (o : oracle) (s : str) (f : format) (n : Z) (t : str) (form : ctor_form),
+    parse_format s None None CfNone = ROk f -> in_int64 n = true -> mem (f_char f) l_dxXobB = true ->
+    (f_prec f = 0 -> n <> 0) ->
+    format_value o (VInt n) (FStr s) = Some (OText t) ->
+    int_ctor form (trim_space t) (radix_of (f_char f)) None = Some n.
+Proof. exact radix_roundtrip_ctor_directive. Qed.
+Print Assumptions C20_radix_roundtrip_any_directive.
+
+Example C20_radix_pad_ex :
+  format_value o0 (VInt 255) (FStr (lit "%+024x")) = Some (OText (lit "+000000000000000000000ff"))
+  /\ int_ctor CPositional (lit "+000000000000000000000ff") 16 None = Some 255
+  /\ int_ctor CNamed (lit "+000000000000000000000ff") 16 None = Some 255
+  /\ format_value o0 (VInt (-9)) (FStr (lit "%.21d")) = Some (OText (lit "-000000000000000000009"))
+  /\ int_ctor CNamed (lit "-000000000000000000009") 10 (Some true) = Some 9
+  /\ format_value o0 (VInt 8) (FStr (lit "%#-8o")) = Some (OText (lit "010     "))
+  /\ int_ctor CPositional (trim_space (lit "010     ")) 8 None = Some 8
+  /\ format_value o0 (VInt 0) (FStr (lit "%3.0x")) = Some (OText (lit "   "))
+  /\ int_ctor CPositional (lit "ff") 7 None = None
+  /\ int_ctor CPositional (lit "-8000000000000000") 16 (Some true) = Some (-9223372036854775808).
+Proof. vm_compute. repeat split. Qed.
 
 (* --- width and padding side ------------------------------------------------------------------ *)
 
